@@ -382,6 +382,8 @@ class TSet:
             if _op is not None:
                 try:
                     self._r = t.reg()
+                    if _op[0] == 'updl':          # a fresh set filled by successive adds (PySet_New(NULL) + PySet_Add)
+                        t.op('new', self._r)
                     t.op(_op[0], self._r, *_op[1:])
                 except Unsupported:
                     self._r = None
@@ -641,12 +643,36 @@ def _tset_new(it=()):
     return TSet(it)
 
 
+_KEYS = type({}.keys())
+
+
+def _tset_and(a, b):
+    """`a & b` in the traced source.  Two dict key views: CPython's `_PyDictView_Intersect` fills a fresh set by iterating
+    the smaller view (the right one on ties) and adding the keys the other holds — logged as that sequence of adds."""
+    r = a & b
+    if type(a) is _KEYS and type(b) is _KEYS and type(r) is set and TSet.TRACE is not None:
+        so, other = a, b
+        if len(other) > len(so):
+            so, other = other, so
+        try:
+            return TSet(_wrap=r, _op=('updl', *_ints([k for k in other if k in so])))
+        except Unsupported:
+            return TSet(_wrap=r)
+    return r
+
+
 class _Rewrite(ast.NodeTransformer):
     """set displays and set comprehensions build their set by successive adds: route them through the wrapper"""
 
     def visit_Set(self, node):
         self.generic_visit(node)
         return ast.copy_location(ast.Call(ast.Name('__tset_display__', ast.Load()), [ast.List(node.elts, ast.Load())], []), node)
+
+    def visit_BinOp(self, node):
+        self.generic_visit(node)
+        if isinstance(node.op, ast.BitAnd):
+            return ast.copy_location(ast.Call(ast.Name('__tset_and__', ast.Load()), [node.left, node.right], []), node)
+        return node
 
     def visit_SetComp(self, node):
         self.generic_visit(node)
@@ -664,6 +690,7 @@ def traced_function(func):
     ns = dict(func.__globals__)
     ns['set'] = _tset_new
     ns['__tset_display__'] = lambda xs: TSet(xs)
+    ns['__tset_and__'] = _tset_and
     exec(compile(tree, inspect.getsourcefile(func) or '<traced>', 'exec'), ns)
     return ns[fdef.name]
 
@@ -700,6 +727,7 @@ class SitePatch:
         ns = dict(R.__dict__)
         ns['set'] = _tset_new
         ns['__tset_display__'] = lambda xs: TSet(xs)
+        ns['__tset_and__'] = _tset_and
         self.traced = []
         for name in RING_FUNCS:
             f = getattr(R, name, None)
@@ -724,6 +752,7 @@ class SitePatch:
             ns2 = dict(SM.__dict__)
             ns2['set'] = _tset_new
             ns2['__tset_display__'] = lambda xs: TSet(xs)
+            ns2['__tset_and__'] = _tset_and
             self.saved.append((SM.Smiles, '_smiles', f))
             setattr(SM.Smiles, '_smiles', self._compile(f, ns2))
             self.traced.append('Smiles._smiles')
